@@ -4,6 +4,9 @@
   One Lean function per Go function, same guards, same order of evaluation; every slice expression and index
   goes through the fault-aware primitives of Basic/Bytes (a Go panic = `.error fault`).
 
+  This is the code after the fixes of /verif/fixes/index (01 … 07); the code before them is frozen in
+  Model/IndexOrig.lean.
+
   Conventions
   * `IndexType` is the Go enum as a number: 0 unknown, 1 btree, 2 hash, 3 gist, 4 gin, 5 spgist, 6 brin.
   * `binary.LittleEndian.UintN(s[a:a+n])` is `uN n s a`: it faults exactly when `a+n > len s` (the model checks
@@ -79,13 +82,15 @@ deriving Repr, DecidableEq
 
 /-! ### detectIndexType -/
 
-def BTMaxCycleID : Nat := 0xFF00
+def BTMaxCycleID : Nat := 0xFF7F
 
 /-- the GIN test at the end of detectIndexType -/
 def detectGIN (specialSize : Nat) (specialData : Bytes) : M Nat :=
   if specialSize ≥ 8 then do
     let flags ← uN 2 specialData 6
-    if flags &&& 8 != 0 || flags &&& 1 != 0 || flags &&& 16 != 0 then pure 4 else pure 0
+    if flags &&& 8 != 0 || flags &&& 1 != 0 || flags &&& 16 != 0 then pure 4
+    else if specialSize = 8 ∧ flags &&& 0xFF00 = 0 then pure 4
+    else pure 0
   else pure 0
 
 /-- the B-tree test (cycle id range, meta magic when the META flag is set), falling through to the GIN test -/
@@ -114,6 +119,7 @@ def detectIndexType (page : Bytes) : M Nat :=
         if pageID = 0xFF80 then pure 2
         else if pageID = 0xFF81 then pure 3
         else if pageID = 0xFF82 then pure 5
+        else if specialSize = 8 ∧ pageID ≥ 0xF091 ∧ pageID ≤ 0xF093 then pure 6
         else detectBTree page specialSize specialData
       else detectBTree page specialSize specialData
 
@@ -131,7 +137,7 @@ def parseBTreePageSpecial (info : PageInfo) (special : Bytes) : M PageInfo :=
                      isDeleted := flags &&& 4 != 0, flagStrings := info.flagStrings ++ flagStrings 1 flags }
 
 def parseHashPageSpecial (info : PageInfo) (special : Bytes) : M PageInfo :=
-  if special.length < 12 then pure info
+  if special.length < 14 then pure info
   else do
     let prev ← uN 4 special 0
     let next ← uN 4 special 4
@@ -166,13 +172,22 @@ def parseSPGiSTPageSpecial (info : PageInfo) (special : Bytes) : M PageInfo :=
     pure { info with flags := flags, isLeaf := flags &&& 4 != 0, isMeta := flags &&& 1 != 0, isDeleted := flags &&& 2 != 0,
                      flagStrings := info.flagStrings ++ flagStrings 5 flags }
 
+def parseBRINPageSpecial (info : PageInfo) (special : Bytes) : M PageInfo :=
+  if special.length < 8 then pure info
+  else do
+    let flags ← uN 2 special 4
+    let ty ← uN 2 special 6
+    pure { info with flags := flags, isMeta := ty == 0xF091 }
+
 /-! ### parseIndexPage -/
 
 def parseIndexPage (page : Bytes) (pageNum : Nat) (t : Nat) : M PageInfo :=
   let info0 : PageInfo := { pageNumber := pageNum, indexType := t, typeString := typeString t }
   if page.length < 8192 then pure info0
   else do
-    let lsn ← uN 8 page 0
+    let hi ← uN 4 page 0
+    let lo ← uN 4 page 4
+    let lsn := hi <<< 32 ||| lo
     let lower ← uN 2 page 12
     let upper ← uN 2 page 14
     let special ← uN 2 page 16
@@ -187,6 +202,7 @@ def parseIndexPage (page : Bytes) (pageNum : Nat) (t : Nat) : M PageInfo :=
       | 3 => parseGiSTPageSpecial info specialData
       | 4 => parseGINPageSpecial info specialData
       | 5 => parseSPGiSTPageSpecial info specialData
+      | 6 => parseBRINPageSpecial info specialData
       | _ => pure info
     else pure info
 
@@ -196,7 +212,7 @@ def parseBTreeMeta (page : Bytes) : M (Option MetaInfo) :=
   if page.length < 8192 then pure none
   else do
     let special ← uN 2 page 16
-    if special ≥ 8192 then pure none
+    if special + 14 > 8192 then pure none
     else do
       let flags ← uN 2 page (special + 12)
       if flags &&& 8 == 0 then pure none
@@ -216,7 +232,7 @@ def parseHashMeta (page : Bytes) : M (Option MetaInfo) :=
   if page.length < 8192 then pure none
   else do
     let special ← uN 2 page 16
-    if special ≥ 8192 then pure none
+    if special + 14 > 8192 then pure none
     else do
       let flags ← uN 2 page (special + 12)
       if flags &&& 8 == 0 then pure none
@@ -224,12 +240,12 @@ def parseHashMeta (page : Bytes) : M (Option MetaInfo) :=
         let data ← sliceFrom page 24
         let magic ← uN 4 data 0
         let version ← uN 4 data 4
-        let numBuckets ← uN 4 data 16
-        let maxBucket ← uN 4 data 8
-        let highMask ← uN 4 data 12
-        let lowMask ← uN 4 data 20
-        let ffactor ← uN 2 data 24
-        pure (some (.hash magic version numBuckets maxBucket highMask lowMask ffactor 0))
+        let maxBucket ← uN 4 data 24
+        let highMask ← uN 4 data 28
+        let lowMask ← uN 4 data 32
+        let ffactor ← uN 2 data 16
+        let ntuples ← uN 8 data 8
+        pure (some (.hash magic version ((maxBucket + 1) % 2 ^ 32) maxBucket highMask lowMask ffactor ntuples))
 
 def parseGINMeta (page : Bytes) : M (Option MetaInfo) :=
   if page.length < 8192 then pure none
@@ -244,16 +260,16 @@ def parseGINMeta (page : Bytes) : M (Option MetaInfo) :=
         if flags &&& 8 == 0 then pure none
         else do
           let data ← sliceFrom page 24
-          let version ← uN 4 data 0
-          let head ← uN 4 data 4
-          let tail ← uN 4 data 8
-          let tailFree ← uN 4 data 12
-          let nPendingPages ← uN 4 data 16
-          let nPendingHeapTuples ← uN 8 data 24
-          let nTotalPages ← uN 4 data 32
-          let nEntryPages ← uN 4 data 36
-          let nDataPages ← uN 4 data 40
-          let nEntries ← uN 8 data 48
+          let version ← uN 4 data 48
+          let head ← uN 4 data 0
+          let tail ← uN 4 data 4
+          let tailFree ← uN 4 data 8
+          let nPendingPages ← uN 4 data 12
+          let nPendingHeapTuples ← uN 8 data 16
+          let nTotalPages ← uN 4 data 24
+          let nEntryPages ← uN 4 data 28
+          let nDataPages ← uN 4 data 32
+          let nEntries ← uN 8 data 40
           pure (some (.gin version head tail tailFree nPendingPages nPendingHeapTuples nTotalPages nEntryPages nDataPages nEntries))
 
 /-! ### ParseIndexFile -/
@@ -267,6 +283,46 @@ def parsePages (data : Bytes) (t : Nat) : Nat → Nat → M (List PageInfo)
     let pi ← parseIndexPage page (i % 2 ^ 32) t
     let rest ← parsePages data t n (i + 1)
     pure (pi :: rest)
+
+/-- the same loop walking the remaining suffix of the file (linear instead of quadratic time on `List`);
+the compiled driver runs this one (`csimp` below: proved equal to `parsePages`) -/
+def parsePagesFast (t : Nat) : Nat → Nat → Bytes → M (List PageInfo)
+  | 0, _, _ => pure []
+  | n+1, i, rest =>
+    if (rest.drop 8191).isEmpty then throw .slice
+    else do
+      let pi ← parseIndexPage (rest.take 8192) (i % 2 ^ 32) t
+      let r ← parsePagesFast t n (i + 1) (rest.drop 8192)
+      pure (pi :: r)
+
+def parsePagesImpl (data : Bytes) (t n i : Nat) : M (List PageInfo) :=
+  parsePagesFast t n i (data.drop (i * 8192))
+
+@[csimp] theorem parsePages_eq_impl : @parsePages = @parsePagesImpl := by
+  funext data t n i
+  induction n generalizing i with
+  | zero => simp [parsePages, parsePagesImpl, parsePagesFast]
+  | succ n ih =>
+    unfold parsePagesImpl at ih ⊢
+    unfold parsePages parsePagesFast
+    by_cases h : i * 8192 + 8192 ≤ data.length
+    · have he : ((data.drop (i * 8192)).drop 8191).isEmpty = false := by
+        cases hd : (data.drop (i * 8192)).drop 8191 with
+        | nil => have := congrArg List.length hd; simp at this; omega
+        | cons x xs => rfl
+      rw [slice_ok data (i * 8192) (i * 8192 + 8192) h (Nat.le_add_right _ _), he, ih (i + 1)]
+      have e1 : (data.take (i * 8192 + 8192)).drop (i * 8192) = (data.drop (i * 8192)).take 8192 := by
+        have e : i * 8192 + 8192 - i * 8192 = 8192 := by omega
+        rw [List.drop_take, e]
+      have e2 : (data.drop (i * 8192)).drop 8192 = data.drop ((i + 1) * 8192) := by
+        have e : i * 8192 + 8192 = (i + 1) * 8192 := by omega
+        rw [List.drop_drop, e]
+      rw [e1, e2]; rfl
+    · have he : ((data.drop (i * 8192)).drop 8191).isEmpty = true := by
+        rw [List.isEmpty_iff]; apply List.eq_nil_of_length_eq_zero; simp; omega
+      rw [he]
+      unfold slice
+      rw [if_pos (by omega)]; rfl
 
 /-- the `switch info.Type` that fills Meta / RootPage / Levels -/
 def parseMeta (t : Nat) (page0 : Bytes) : M (Option MetaInfo) :=
